@@ -916,6 +916,7 @@ class FitBase(FileIOMixin, object):
         )
         # the constraint list is changed in place: tell the graph that the constraint cost is out of date
         self._nexus.get("parameter_constraints").mark_for_update()
+        self._fitter.reset_minimizer()  # results of an earlier fit belong to a different cost function
         self._fit_param_names_bad_default = self._fit_param_names_bad_default.difference(names)
 
     def add_parameter_constraint(self, name, value, uncertainty, relative=False):
@@ -933,6 +934,7 @@ class FitBase(FileIOMixin, object):
         self._fit_param_constraints.append(GaussianSimpleParameterConstraint(index=_index, value=value, uncertainty=uncertainty, relative=relative))
         # the constraint list is changed in place: tell the graph that the constraint cost is out of date
         self._nexus.get("parameter_constraints").mark_for_update()
+        self._fitter.reset_minimizer()  # results of an earlier fit belong to a different cost function
         self._fit_param_names_bad_default.discard(name)
 
     def get_matching_errors(self, matching_criteria=None, matching_type="equal"):
